@@ -643,6 +643,11 @@ fn builtin() -> Vec<Scenario> {
     // --- get_at of the same frame twice
     add("getat0-getat0", false, 1, vec![], vec![vec![GetAt(5, 0)], vec![GetAt(5, 0)]]);
     add("getat0-getat0-row", false, 1, vec![], vec![vec![GetAt(5, 0)], vec![GetAt(6, 0)]]);
+    // a targeted get of a HELD block (it has to fail without ever touching the bits) vs untargeted gets in the same row
+    add("getat-held0-vs-get0", false, 1, vec![GetAt(0, 0)], vec![vec![GetAt(0, 0)], vec![Get(0, 0), Get(0, 0)]]);
+    add("getat-held1-vs-get1", false, 1, vec![GetAt(0, 1)], vec![vec![GetAt(0, 1)], vec![Get(0, 1), Get(0, 1)]]);
+    add("getat-held2-vs-get2", false, 1, vec![GetAt(4, 2)], vec![vec![GetAt(4, 2)], vec![Get(0, 2), Get(0, 2), Get(0, 0)]]);
+    add("put-unheld0-vs-put0", false, 1, vec![GetAt(1, 0)], vec![vec![GetAt(0, 0), PutLast(0)], vec![Put(1, 0), Get(0, 0)]]);
     add("getat3-getat3", false, 1, vec![], vec![vec![GetAt(8, 3)], vec![GetAt(8, 3)]]);
     add("getat5-getat4", false, 1, vec![], vec![vec![GetAt(32, 5)], vec![GetAt(48, 4)]]);
     add("getat7-getat7", false, 1, vec![], vec![vec![GetAt(128, 7)], vec![GetAt(128, 7)]]);
@@ -1030,6 +1035,33 @@ fn builtin_upper() -> Vec<Scenario> {
     add("u-getat-getat-noslot", s1(), false, 2, vec![], vec![vec![ga(70, 0, 0, None)], vec![ga(71, 0, 0, None)]]);
     add("u-getat-get-warm", s1(), false, 2, vec![g(0, 0, Some(0))], vec![vec![ga(tf + 3, 0, 0, Some(0))], vec![g(0, 0, Some(0))]]);
     add("u-getat9-get0", s1(), false, 2, vec![], vec![vec![ga(0, ho, 1, None)], vec![g(0, 0, Some(0))]]);
+    // a targeted get of a held block fails; untargeted gets of the same tree and row must never be handed that block
+    add("u-getat-held-vs-get", s1(), false, 2, vec![ga(0, 0, 0, None)], vec![vec![ga(0, 0, 0, None)], vec![g(0, 0, None), g(0, 0, None)]]);
+    add("u-getat-held1-vs-get1", s1(), false, 2, vec![ga(0, 1, 0, None)], vec![vec![ga(0, 1, 0, Some(0))], vec![g(1, 0, None), g(1, 0, None)]]);
+    // everything is allocated except one frame (row 2 of tree 1) that slot 0 has reserved (slot row = first row of the tree,
+    // counter 1): the get moves the slot's start row (set_start) while a free through the SAME slot increments its counter
+    add(
+        "u-setstart-vs-put",
+        s1(),
+        true,
+        2,
+        vec![UPut { frame: tf + 131, order: 0, class: 0, local: None }, g(0, 0, Some(0)), pp(1, 0, 0, 0, Some(0))],
+        vec![vec![g(0, 0, Some(0))], vec![UPut { frame: tf + 200, order: 0, class: 0, local: Some(0) }]],
+    );
+    // ... or a get through the same slot syncs with the global counter (one frame freed there without a slot)
+    add(
+        "u-setstart-vs-get-sync",
+        s1(),
+        true,
+        2,
+        vec![
+            UPut { frame: tf + 131, order: 0, class: 0, local: None },
+            g(0, 0, Some(0)),
+            pp(1, 0, 0, 0, Some(0)),
+            UPut { frame: tf + 300, order: 0, class: 0, local: None },
+        ],
+        vec![vec![g(0, 0, Some(0))], vec![g(0, 0, Some(0))]],
+    );
     // a targeted get without slot into a tree that is reserved (its global counter holds the frame freed without slot)
     add(
         "u-getat-reserved",
@@ -1305,6 +1337,8 @@ struct Exec<'a> {
     got: Vec<(usize, usize, u8)>,
     /// the step limit was hit: threads are still inside calls
     aborted: bool,
+    /// blocks freed by completed puts of the scheduled part (probed after the run)
+    freed: Vec<(usize, usize)>,
 }
 
 fn overlap(a: (usize, usize), b: (usize, usize)) -> bool {
@@ -1341,6 +1375,7 @@ impl<'a> Exec<'a> {
             pre_res: Vec::new(),
             got: Vec::new(),
             aborted: false,
+            freed: Vec::new(),
         };
         let _ = writeln!(ex.text, "RUN {run} scenario={} mode={mode}", scn.name);
         let _ = writeln!(
@@ -1436,6 +1471,9 @@ impl<'a> Exec<'a> {
                     ));
                 }
                 self.held.push(b);
+            }
+            (CallSpec::UPut { frame: f, order: o, .. }, Res::Unit) => {
+                self.freed.push((f, o));
             }
             (CallSpec::Put(f, o) | CallSpec::UPut { frame: f, order: o, .. }, Res::Err(e)) => {
                 self.hfail(format!("free of held block returned err {e}: put {f} {o}"));
@@ -1740,6 +1778,13 @@ impl<'a> Exec<'a> {
             let free_frame = (t * TREE_FRAMES..hi).rev().find(|&f| !is_held(&self.held, f));
             if let Some(f) = free_frame {
                 self.post_call(CallSpec::UGet { frame: Some(f), order: 0, class: c0, local: if t % 2 == 1 { Some(0) } else { None } });
+            }
+        }
+        // the blocks freed during the run that are still free: their first frame must be allocatable again
+        let freed: Vec<(usize, usize)> = self.freed.iter().copied().take(4).collect();
+        for (f, o) in freed {
+            if (f..f + (1 << o)).all(|x| !is_held(&self.held, x)) {
+                self.post_call(CallSpec::UGet { frame: Some(f), order: 0, class: c0, local: None });
             }
         }
         let held_frame = (0..frames).find(|&f| is_held(&self.held, f));
